@@ -619,6 +619,53 @@ def registry_per_object(gb):
     raise Shape("_group_keys is initialised in another way")
 
 
+def columns_copied(gb):
+    """`GroupBy.__init__`: is what `self._columns` holds a NEW object in every branch - `tuple(columns)`,
+    `list(columns)`, `[columns]`, `[*columns]`, a comprehension over it - (True), or, in some branch, the object the
+    caller passed (False: `self._columns = columns`, also after `columns = [columns]` in ANOTHER branch only)?
+    A GroupBy is evaluated later; a caller who edits its list in between must not change what is grouped by."""
+    init = gb.func("__init__", "GroupBy")
+    params = [a.arg for a in init.args.args[1:]]
+    if len(params) < 2:
+        raise Shape("__init__ parameters")
+    col = params[1]
+    stores = [n for n in ast.walk(init) if isinstance(n, ast.Assign) and len(n.targets) == 1
+              and _u(n.targets[0]) == "self._columns"]
+    if not stores:
+        raise Shape("no assignment to self._columns")
+
+    def fresh_of_param(v):
+        if isinstance(v, ast.Call) and isinstance(v.func, ast.Name) and v.func.id in ("tuple", "list") and len(v.args) == 1 \
+                and not v.keywords and _is_name(v.args[0], col):
+            return True
+        if isinstance(v, (ast.List, ast.Tuple)) and all(_is_name(e, col) or (isinstance(e, ast.Starred) and _is_name(e.value, col))
+                                                         for e in v.elts) and v.elts:
+            return True
+        if isinstance(v, (ast.ListComp,)) or (isinstance(v, ast.Call) and isinstance(v.func, ast.Name) and v.func.id in ("tuple", "list")
+                                              and len(v.args) == 1 and isinstance(v.args[0], (ast.GeneratorExp, ast.ListComp))):
+            return True
+        return False
+
+    verdicts = []
+    for st in stores:
+        if fresh_of_param(st.value):
+            verdicts.append(True)
+        elif _is_name(st.value, col):
+            verdicts.append(False)  # the caller's object (a rebinding `columns = [columns]` covers one branch at most)
+        else:
+            raise Shape("self._columns = %s" % _u(st.value)[:40])
+    if not all(verdicts):
+        # `columns = tuple(columns)` (unconditionally, at the top level of __init__, before the store) makes it fresh again
+        for n in init.body:
+            if isinstance(n, ast.Assign) and len(n.targets) == 1 and _is_name(n.targets[0], col) and fresh_of_param(n.value) \
+                    and isinstance(n.value, ast.Call):
+                return True
+            if any(x in stores for x in ast.walk(n)):
+                break
+        return False
+    return True
+
+
 # ----------------------------------------------------------------------------- Lean text
 
 PINNED = {
@@ -641,6 +688,7 @@ PINNED = {
     "materialize_makes_list": True,
     "fresh_value_map": True,
     "registry_per_object": True,
+    "columns_copied": True,
 }
 
 
@@ -688,6 +736,8 @@ def generate(o):
     fvm = o.item("group_by.aggregate.fresh_value_map", lambda: fresh_value_map(gb), P["fresh_value_map"])
     rpo = o.item("group_by.__init__.registry_per_object", lambda: registry_per_object(gb), P["registry_per_object"])
 
+    cc = o.item("group_by.__init__.columns_copied", lambda: columns_copied(gb), P["columns_copied"])
+
     def part(p):
         return ".lit %s" % lean_str(p[1]) if p[0] == "lit" else "." + p[0]
 
@@ -722,5 +772,7 @@ def generate(o):
     t += "def freshValueMap : Bool := %s\n" % lean_bool(fvm)
     t += "/-- `GroupBy.__init__`: `self._group_keys = {}` (one registry per object) -/\n"
     t += "def registryPerObject : Bool := %s\n" % lean_bool(rpo)
+    t += "/-- `GroupBy.__init__`: `self._columns` is a new object (`tuple(columns)` / `[columns]`), never the caller's list -/\n"
+    t += "def columnsCopied : Bool := %s\n" % lean_bool(cc)
     t += "end Gen.GroupByCode\n"
     o.files["GroupByCode.lean"] = t
